@@ -1398,10 +1398,17 @@ class Executor:
                     and all(x[0] == "const" or x[1] in TYPE_BUILTINS for x in (a, b)):
                 return op in ("IsNot", "NotEq")      # a type object is never a constant, nor another type
             if a == b and _pure(a):
-                if op in ("Eq", "Is", "LtE", "GtE"):
+                # identity is reflexive for every object; equality and order are reflexive only for values that are not user
+                # data (a user value may be NaN, or an object whose __eq__ says otherwise: x != x can hold)
+                if op == "Is":
                     return True
-                if op in ("NotEq", "IsNot", "Lt", "Gt"):
+                if op == "IsNot":
                     return False
+                if _reflexive_eq(a):
+                    if op in ("Eq", "LtE", "GtE"):
+                        return True
+                    if op in ("NotEq", "Lt", "Gt"):
+                        return False
         return None
 
     # ---- calls -------------------------------------------------------
@@ -1796,6 +1803,25 @@ def _fold_cmp(op, a, b):
     if op == "NotIn":
         return a not in b
     raise ValueError(op)
+
+
+def _reflexive_eq(t):
+    """x == x certainly holds: t denotes an int / bool / str / None / tuple of such, not a value supplied by the user (an item, the
+    result of a user function, a stored accumulator ...)"""
+    h = t[0]
+    if h in ("const", "param", "kindcls", "glob", "modvar", "builtin", "stateid", "loopvar"):
+        return True
+    if h == "attr":
+        return t[1] == EV and t[2] == "key"
+    if h == "sub":
+        return _reflexive_eq(t[1]) and _reflexive_eq(t[2])
+    if h in ("binop", "unop", "tuple"):
+        return all(_reflexive_eq(x) for x in t[1:] if isinstance(x, tuple))
+    if h == "call" and t[1] == ("builtin", "len"):
+        return True
+    if h == "call" and t[1][0] == "builtin" and t[1][1] in ("int", "abs", "min", "max", "divmod", "bool", "str", "type"):
+        return all(_reflexive_eq(x) for x in t[2])
+    return False
 
 
 def _pure(t):
